@@ -78,7 +78,7 @@ func (db *TransactionDB) TransactionBegin(
 	if timeout < 0 {
 		timeout = db.transactionDBOpts.transactionLockTimeout
 	}
-	return beginTransaction(db.m, oldTransaction, true, timeout, transactionOpts.setSnapshot)
+	return beginTransaction(db.m, oldTransaction, opts, true, timeout, transactionOpts.setSnapshot)
 }
 
 // Get returns the data associated with the key from the database.
@@ -121,32 +121,32 @@ func (db *TransactionDB) MultiGetWithCF(opts *ReadOptions, cf *ColumnFamilyHandl
 
 // Put writes data associated with a key to the database.
 func (db *TransactionDB) Put(opts *WriteOptions, key, value []byte) (err error) {
-	return db.write([]wbOp{{t: WriteBatchValueRecord, key: key, value: value, isData: true}})
+	return db.write(opts, []wbOp{{t: WriteBatchValueRecord, key: key, value: value, isData: true}})
 }
 
 // PutCF writes data associated with a key to the database on specific column family.
 func (db *TransactionDB) PutCF(opts *WriteOptions, cf *ColumnFamilyHandle, key, value []byte) (err error) {
-	return db.write([]wbOp{{t: WriteBatchCFValueRecord, cf: cfID(cf), key: key, value: value, isData: true}})
+	return db.write(opts, []wbOp{{t: WriteBatchCFValueRecord, cf: cfID(cf), key: key, value: value, isData: true}})
 }
 
 // Merge writes data associated with a key to the database.
 func (db *TransactionDB) Merge(opts *WriteOptions, key, value []byte) (err error) {
-	return db.write([]wbOp{{t: WriteBatchMergeRecord, key: key, value: value, isData: true}})
+	return db.write(opts, []wbOp{{t: WriteBatchMergeRecord, key: key, value: value, isData: true}})
 }
 
 // MergeCF writes data associated with a key to the database on specific column family.
 func (db *TransactionDB) MergeCF(opts *WriteOptions, cf *ColumnFamilyHandle, key, value []byte) (err error) {
-	return db.write([]wbOp{{t: WriteBatchCFMergeRecord, cf: cfID(cf), key: key, value: value, isData: true}})
+	return db.write(opts, []wbOp{{t: WriteBatchCFMergeRecord, cf: cfID(cf), key: key, value: value, isData: true}})
 }
 
 // Delete removes the data associated with the key from the database.
 func (db *TransactionDB) Delete(opts *WriteOptions, key []byte) (err error) {
-	return db.write([]wbOp{{t: WriteBatchDeletionRecord, key: key, isData: true}})
+	return db.write(opts, []wbOp{{t: WriteBatchDeletionRecord, key: key, isData: true}})
 }
 
 // DeleteCF removes the data associated with the key from the database on specific column family.
 func (db *TransactionDB) DeleteCF(opts *WriteOptions, cf *ColumnFamilyHandle, key []byte) (err error) {
-	return db.write([]wbOp{{t: WriteBatchCFDeletionRecord, cf: cfID(cf), key: key, isData: true}})
+	return db.write(opts, []wbOp{{t: WriteBatchCFDeletionRecord, cf: cfID(cf), key: key, isData: true}})
 }
 
 // NewCheckpoint creates a new Checkpoint for this db.
@@ -165,7 +165,7 @@ func (db *TransactionDB) CreateColumnFamily(opts *Options, name string) (handle 
 
 // Write writes a WriteBatch to the database.
 func (db *TransactionDB) Write(opts *WriteOptions, batch *WriteBatch) (err error) {
-	return db.write(batch.ops)
+	return db.write(opts, batch.ops)
 }
 
 // Flush triggers a manual flush for the database.
